@@ -14,7 +14,7 @@ Bounded-exhaustive enumeration on the real interpreter:
   utf      utf8->string / string->utf8 (and utf16/utf32) on every byte string <= 3 (4) over a 26-byte alphabet of
            lead / continuation / invalid bytes, against CPython's strict decoder.
 """
-import os, sys, itertools, base64, binascii, json, math, re, shutil, struct, io, csv as pycsv
+import os, sys, itertools, base64, binascii, json, math, re, shutil, struct, io, subprocess, threading, time, csv as pycsv
 from collections import Counter
 from fractions import Fraction
 from multiprocessing import Pool
@@ -142,7 +142,9 @@ def run_cases(variant, make_text, n, tag="c19", timeout=900):
             break
         stops += 1
         if stops > 12:
-            events.append(("gave-up", done, res.rc, tail[-600:]))
+            if events and all(e[0] == "escaped" for e in events) and not any(l is not None for l in lines):
+                raise common.HarnessError("driver does not run (%s): %s" % (tag, res.out[-1200:]))
+            events.append(("gave-up", done, n - done, tail[-600:]))      # third field: cases not run
             break
         if exc and not asan and not res.timed_out:
             # the harness flushes before printing ;;EXC, so `done` is exact
@@ -190,7 +192,7 @@ class JobResult:
                 self.outcomes["error-bypassing-guard"] += 1
                 continue
             if kind == "gave-up":
-                self.not_run += 1
+                self.not_run += rc
                 continue
             m = re.search(r"ERROR: AddressSanitizer: (\S+).*", tail)
             frames = re.findall(r"#\d+ \S+ in (\S+) (\S+)", tail)[:4]
@@ -1324,14 +1326,44 @@ def job_acc_server(variant, which):
     def run(idxs):
         f = os.path.join(d, "run.scm")
         common.write_file(f, "".join("(run-case %d)\n" % i for i in idxs))
-        res = srv.run(f)
+        # watchdog: the fork server has no time limit of its own, and a collector walking a damaged heap may spin.
+        # The limit is on the CPU time of the forked child (a case needs milliseconds), so machine load cannot trip it.
+        fired = []
+        stop = threading.Event()
+        cpu_limit = 3.0 if len(idxs) == 1 else 240.0
+
+        def watchdog():
+            tick = os.sysconf("SC_CLK_TCK")
+            t0 = time.time()
+            while not stop.wait(0.25):
+                for pid in subprocess.run(["pgrep", "-P", str(srv.p.pid)], capture_output=True, text=True).stdout.split():
+                    try:
+                        st = open("/proc/%s/stat" % pid).read().rsplit(")", 1)[1].split()
+                        cpu = (int(st[11]) + int(st[12])) / tick
+                    except (OSError, IndexError, ValueError):
+                        continue
+                    if cpu > cpu_limit or time.time() - t0 > 900:
+                        fired.append(cpu)
+                        try:
+                            os.kill(int(pid), 9)
+                        except OSError:
+                            pass
+
+        th = threading.Thread(target=watchdog, daemon=True)
+        th.start()
+        try:
+            res = srv.run(f)
+        finally:
+            stop.set()
+            th.join()
         lines, tail = split_output(res.out)
         for i, l in zip(idxs, lines):
             got[i] = l
         if len(lines) < len(idxs) or res.rc != 0 or "ERROR: AddressSanitizer" in res.out:
             bad = idxs[min(len(lines), len(idxs) - 1)]
-            crashes[bad] = (res.rc, tail[-1200:])
-            return idxs[len(lines) + 1:]
+            got.pop(bad, None)
+            crashes[bad] = ("watchdog" if fired else res.rc, tail[-1200:])
+            return idxs[idxs.index(bad) + 1:]
         return []
 
     safe = [i for i, c in enumerate(cs) if not c.risky]
@@ -1358,6 +1390,12 @@ def judge_cases(r, cs, got, crashes, imports):
             m = re.search(r"ERROR: AddressSanitizer: (\S+).*", tail)
             r.n += 1
             r.nontrivial += 1
+            if rc == "watchdog":
+                r.violation(c.op + "-hang", dict(c.desc, rc=rc, expr=c.expr),
+                            "%s followed by a garbage collection did not terminate (killed after 3 s of CPU time; such a case "
+                            "normally takes milliseconds): the store damaged the heap" % c.expr, replay)
+                r.outcomes[c.op + ":hang"] += 1
+                continue
             r.violation(c.op + "-crash", dict(c.desc, rc=rc, asan=m.group(0)[:200] if m else None, expr=c.expr),
                         "%s crashed the interpreter (rc=%s) %s" % (c.expr, rc, m.group(0)[:200] if m else tail[-200:]), replay)
             r.outcomes[c.op + ":crash"] += 1
@@ -1908,6 +1946,8 @@ def main(tier, replay=None):
             not_run += r.not_run
             if getattr(r, "harness_error", None):
                 harness_errors.append((r.title, r.harness_error))
+            if done % 25 == 0:
+                log("C19 %s: %d/%d jobs, %d evaluations, %d violating cases" % (tier, done, len(jobs), chk.evaluations, sum(viol_total.values())))
             if chk.out_of_time():
                 pool.terminate()
                 log("deadline reached after %d/%d jobs" % (done, len(jobs)))
@@ -1959,8 +1999,11 @@ def replay(path):
         meta = json.load(open(path + ".json"))
     variant = meta.get("variant", "asan")
     build.build_variant(variant)
-    res = common.evalbatch(variant, [path], timeout=600)
+    res = common.evalbatch(variant, [path], timeout=60 if "hang" in str(meta.get("op", "")) else 600)
     print(res.out)
+    if res.timed_out:
+        print("no termination within the time limit")
+        return 1
     line = first_line(res.out)
     print("result line: %r" % line)
     if "got_line" in meta:
